@@ -25,10 +25,11 @@ INV_NOREF = "INVARIANTS TypeOK ContractClauses\n"
 
 
 def fam_cfg(defs, nodes_m, max_m, has_b="{FALSE}", has_a="{FALSE}", nodes_b="{}", nodes_a="{}", max_b=0, max_a=0,
-            only_valid=False, fixed=False, inv=INV, results='{"", "r1", "r2"}'):
+            only_valid=False, fixed=False, inv=INV, results='{"", "r1", "r2"}', side_defs="SameDefs", side_defs_a=None):
     def c(name, v):
         return "  %s %s %s\n" % (name, "=" if v.startswith("{") else "<-", v)
-    return ("SPECIFICATION GSpec\nCONSTANTS\n" + c("DefSets", defs) + c("HasBSet", has_b) + c("HasASet", has_a)
+    return ("SPECIFICATION GSpec\nCONSTANTS\n" + c("DefSets", defs) + c("DefSetsB", side_defs) + c("DefSetsA", side_defs_a or side_defs)
+            + c("HasBSet", has_b) + c("HasASet", has_a)
             + c("NodesB", nodes_b) + c("NodesM", nodes_m) + c("NodesA", nodes_a)
             + "  MaxB = %d\n  MaxM = %d\n  MaxA = %d\n" % (max_b, max_m, max_a)
             + "  Results = %s\n  OnlyValid = %s\n  EndAliasFixed = %s\n" % (results, "TRUE" if only_valid else "FALSE",
@@ -183,12 +184,14 @@ def run(ctx):
     ctx.assumptions += ["filters are the test-only scripted kinds C02K12/C02K1/C02K123/C02KC/C02K0 (declared results r1,r2 / r1 / r1,r2,r3 / R1,r1 / none); "
                         "result names are compared exactly (case, prefixes, the empty name are different names)",
                         "an END node that carries an alias may or may not be a jump target (both readings admitted by the contract)",
-                        "no alias equals END; before/after pipelines share the main pipeline's filter definitions",
-                        "GlobalFilter: before/after pipelines are given with an explicit non-empty flow"]
+                        "no alias equals END; each of the before / main / after pipelines has its own filter list (the main one, "
+                        "an empty one, or other kinds under the same names)",
+                        "GlobalFilter: before/after pipelines are given with an explicit non-empty flow (or with neither flow nor filters)"]
     fixed = any(f.get("id") == FINDING_END_ALIAS for f in ctx.findings.get("fixed", []))
     q = ctx.quick
     ctx.cov["exhaustive_families"] = ("flow: all main flows of <= 3 nodes over the node variants of PipelineFlow_Gen!%s; keys: all flows of <= 2 nodes over 4 kinds x jumpIf "
-                                      "keys {\"\", R1, r, r1, r11, r2, r3} (one or two per map) x targets; endalias, defs, bma "
+                                      "keys {\"\", R1, r, r1, r11, r2, r3} (one or two per map) x targets; degen: before <= 2 / main <= 1 / after <= 1 nodes "
+                                      "incl. END-only flows x filter lists {empty, main, f:K1} per pipeline; endalias, defs, bma "
                                       "likewise (see tlc_runs); each x all result vectors over {\"\", r1, r2}" % ("QFlowNodes" if q else "FlowNodes (+ <= 4 nodes over Flow4Nodes)"))
     jobs = []          # (label, callable) - TLC generation jobs, run concurrently (each is its own JVM)
     if ctx.phase("mbt"):
@@ -204,6 +207,10 @@ def run(ctx):
                             nodes_b="BmaSideQ" if q else "BmaSide", nodes_a="BmaSideQ" if q else "BmaSide",
                             max_b=1, max_a=1, fixed=fixed), 4 if q else 6),
         ]
+        # degenerate before / after / main pipelines: flows of END nodes only, empty filter lists, per-pipeline kinds
+        fams.append(("degen", fam_cfg("DegDefs", "DegNodesM", 1, has_b="{TRUE, FALSE}", has_a="{TRUE, FALSE}", nodes_b="DegNodesB",
+                                      nodes_a="DegNodesAQ" if q else "DegNodesA", max_b=2, max_a=1 if q else 2, side_defs="DegSideDefs",
+                                      side_defs_a="DegSideDefsQ" if q else "DegSideDefs", fixed=fixed), 4 if q else 6))
         # which jumpIf keys validation accepts: names placed everywhere relative to the declared results of the kind
         fams.insert(1, ("keys", fam_cfg("KeyDefs", "KeyNodes", 2, fixed=fixed, results='{"", "r1", "R1", "r2"}'), 4))
         if not q:
@@ -254,7 +261,8 @@ def run(ctx):
 
 def _sim_gen(ctx, fixed, nb, seed):
     cfg = fam_cfg("SimDefs", "SimNodes", 6, has_b="{TRUE, FALSE}", has_a="{TRUE, FALSE}", nodes_b="SimNodes", nodes_a="SimNodes",
-                  max_b=3, max_a=3, only_valid=True, fixed=fixed, inv=INV_NOREF, results='{"", "r1", "r2", "r3", "R1"}')
+                  max_b=3, max_a=3, only_valid=True, fixed=fixed, inv=INV_NOREF, results='{"", "r1", "r2", "r3", "R1"}',
+                  side_defs="SimSideDefs")
     behs = ctx.tlc_simulate("PipelineFlow_Gen", cfg, num=nb, depth=80, timeout=1200, seed=seed)
     recs = [b[-1] for b in behs if b]
     if len(recs) < nb // 2:
@@ -263,8 +271,16 @@ def _sim_gen(ctx, fixed, nb, seed):
 
 
 def _gf(ctx, groups):
-    # real GlobalFilter objects: before/after given with an explicit flow (an empty flow makes GlobalFilter skip the pipeline)
-    sel = [g for g in groups if all((not g["cfg"][h]) or g["cfg"][s] for h, s in (("hasB", "b"), ("hasA", "a")))]
+    # real GlobalFilter objects: before/after given with an explicit flow, or with neither flow nor filters (a filter list
+    # without a flow makes GlobalFilter skip the pipeline: not claimed)
+    sel = [g for g in groups if all((not g["cfg"][h]) or g["cfg"][s] or not g["cfg"][d]
+                                    for h, s, d in (("hasB", "b", "db"), ("hasA", "a", "da")))]
+    # vacuity guard: END-only side flows over an empty filter list must be among the cases (quick and thorough)
+    deg = [g for g in sel if any(g["cfg"][h] and g["cfg"][s] and not g["cfg"][d] and g["runs"]
+                                 for h, s, d in (("hasB", "b", "db"), ("hasA", "a", "da")))]
+    if ctx.phase("mbt") and not deg:
+        ctx.inconclusive("C02: no runnable before/after pipeline made of built-in nodes only among the GlobalFilter cases")
+    ctx.log("globalfilter: %d cases, %d with a runnable before/after flow that has no filters" % (len(sel), len(deg)))
     if not sel:
         ctx.inconclusive("C02: no before/after cases for the GlobalFilter harness")
     replay(ctx, "globalfilter", sel, pkg=PKG_GF, test="^TestVerifC02GlobalFilter$")
